@@ -98,7 +98,19 @@ def families(args):
     keep = ('object-with-parens-line-comment', 'object-with-parens', 'string-with-slashes', 'body-line-comment', 'continuation', 'string-untouched', 'stringify', 'actual-string-with-ticks')
     mprogs = [p for p in ppfamily.macro_programs(args.tier, args.seed) if p.label.split('/')[1] in keep or args.tier != 'quick']
     fam2 = ppprop.Family('strip-vs-keep/define-bodies', mprogs, mk_case, ('tokens', 'table'), evalfn=c05.evalfn, extra_check=extra_check, role_fn=role_fn)
-    return [fam, fam2]
+    # the flag is threaded into included files (and the other flag is not confused with it): comments inside included and
+    # nested included files, as sole separators
+    import c10
+    from ppfamily import IncProg, T, Com, Inc
+    incs = [IncProg('strip/inc-comment', [T('a', '\n'), Inc('f.svh'), T('z', '\n')], ['A'],
+                    {'f.svh': [T('f0', ''), Com('/* c */', ''), T('f1', ' '), Com('// t'), T('f2', '\n')]}, exists={'f.svh': True}, include_paths=()),
+            IncProg('strip/inc-nested-comment', [Com('/* top */', ' '), Inc('f.svh'), T('z', '\n')], ['A'],
+                    {'f.svh': [T('f0', '\n'), Inc('g.svh'), Com('// after'), T('f1', '\n')], 'g.svh': [Com('/* g */', ''), T('g0', ''), Com('/*s*/', ''), T('g1', '\n')]},
+                    exists={'f.svh': True, 'g.svh': True}, include_paths=())]
+    incs += [p for p in ppfamily.include_programs(args.tier, args.seed) if p.label in ('inc/nested', 'inc/flow-in', 'inc/twice')]
+    fam3 = ppprop.Family('strip-vs-keep/includes', incs, c10.mk_case, ('tokens', 'table'), extra_check=extra_check, role_fn=role_fn,
+                         quirk_roles=[(('macro_named_include_drops_trailing_ws',), 'F11:macro-named-include-drops-the-white-space-after-it', ('tokens',))])
+    return [fam, fam2, fam3]
 
 
 def main():
@@ -107,7 +119,7 @@ def main():
                       rule='programs with comments as sole separators, next to directives and usages, inside define bodies (+ the emission-site and conditional families); strip_comments and the '
                            'define table symbolic; (a) reference cross-check of tokens/table under the flag, (b) relational check between every strip=true and strip=false path with compatible '
                            'conditions, (c) no comment token in strip=true output outside kept `define lines',
-                      bounds={'tier': args.tier}, outside=['comments inside macro actual arguments (C05 family)', 'includes (flag threading into includes is checked by C20/C10 families)'],
+                      bounds={'tier': args.tier}, outside=['comments inside macro actual arguments (C05 family)', 'include shapes outside the five listed (the general include family is C10, with the flag symbolic)'],
                       assumptions=ppprop.STD_ASSUMPTIONS, sample_sym='strip_comments, def_A, alt_A_0')
 
 
